@@ -16,8 +16,9 @@ META = {
             "which failures leave memory ahead of disk.",
     "note": "fault enumeration, not a proof: one error class (the storage call returns SqliteError before executing) at "
             "the enumerated points of the representative transactions; key material has no probe; trusted: TLC, the H2 "
-            "injector, SQLite rollback. Two genuine defects are reproduced and listed as known findings "
-            "(C04-qs-publish-before-storage, C04-idm-publish-before-storage).",
+            "injector, SQLite rollback. Two genuine defects found by this check (publication before storage in the query-server "
+            "and IDM commits) were repaired in /repo commit 04f0132 and are listed under `fixed`; the model follows the "
+            "commit order the tree under test actually has (read off the H3 pause points).",
     "design_ref": "DESIGN.md section 6, C04",
     "technique": "storage-fault enumeration through hook H2 on the real server, each observation judged by a TLC trace spec; "
                  "commit-order model checked by TLC predicts the failing set",
